@@ -38,6 +38,33 @@ def FactsOK : Bool :=
 
 theorem C29_facts_ok : FactsOK = true := by decide
 
+/-- Canonical skeletons (parameters/receiver by position, locals by declaration order, messages blanked; compared by
+    SHA-256 prefix, the texts are comments in Generated/C29.lean and Expected/C29.lean) of every function the model
+    transcribes: any change of structure, operator, constant, call or statement order flips this. -/
+def expectedSkeletons : List (String × String) :=
+  [ ("skelFindNode", "e26aca13c73b607bb1d2d0c8"),
+    ("skelOpenRec", "1b04ba035af2d92941a68665"),
+    ("skelReadDir", "b9113771cd7e2a5193fe7dff"),
+    ("skelOpen", "1043b3fe45076432aa39dbd3"),
+    ("skelFindNodeAPI", "42632bc903bbe154e91c7cc1"),
+    ("skelStat", "923da5766ad015867b74b039"),
+    ("skelNew", "a6a62b23139ed4d5ea8bf079"),
+    ("skelChangeDir", "c3c3137e116be5f13c6f737f"),
+    ("skelOpenDir", "09731dbfddb700a7736f4c65"),
+    ("skelOpenFile", "405022957d85bfcdbc1c328b"),
+    ("skelInfo_newFileInfo", "b28959cb2e00d9dc37b1efcb"),
+    ("skelInfo_newDirInfo", "2f2b80d6701c108853270e82"),
+    ("skelInfo_newSymlinkInfo", "4c8df7e373f27b0f059797f0"),
+    ("skelInfo_info_withProperties", "b2fca916b075c4928c5bc5d1") ]
+
+def generatedSkeletons : List (String × String) :=
+  [ ("skelFindNode", Generated.C29.skelFindNode), ("skelOpenRec", Generated.C29.skelOpenRec), ("skelReadDir", Generated.C29.skelReadDir), ("skelOpen", Generated.C29.skelOpen), ("skelFindNodeAPI", Generated.C29.skelFindNodeAPI), ("skelStat", Generated.C29.skelStat), ("skelNew", Generated.C29.skelNew), ("skelChangeDir", Generated.C29.skelChangeDir), ("skelOpenDir", Generated.C29.skelOpenDir), ("skelOpenFile", Generated.C29.skelOpenFile), ("skelInfo_newFileInfo", Generated.C29.skelInfo_newFileInfo), ("skelInfo_newDirInfo", Generated.C29.skelInfo_newDirInfo), ("skelInfo_newSymlinkInfo", Generated.C29.skelInfo_newSymlinkInfo), ("skelInfo_info_withProperties", Generated.C29.skelInfo_info_withProperties) ]
+
+def SkeletonsOK : Bool := generatedSkeletons == expectedSkeletons
+
+theorem C29_skeletons_ok : SkeletonsOK = true := by decide
+
+
 /-! ## Lookup -/
 
 /-- Whatever `findNode` returns is in the tree at exactly that path (any tree, even a malformed one). -/
@@ -82,6 +109,31 @@ theorem C29_stat_faithful (root : Dir) (name : Str) (hwf : WF root)
     rw [findNode_complete _ root x hwf hv hat]
     rfl
 
+/-- The same with a working directory (`New(c, tree, wd)`; the production caller works below the output
+    directory): for `wd` and `name` with plain components the lookup is at `wd/name`. -/
+theorem C29_stat_faithful_wd (root : Dir) (wd name : Str) (hwf : WF root)
+    (hw : ∀ c ∈ splitOnChar '/' wd, plain c) (hv : ∀ c ∈ splitOnChar '/' name, plain c) (i : Info) :
+    stat root wd name = some i ↔ ∃ x, At root (splitOnChar '/' wd ++ splitOnChar '/' name) x ∧ x.info = i := by
+  unfold stat
+  rw [comps_join_wd wd name hw hv]
+  have hall : ∀ c ∈ splitOnChar '/' wd ++ splitOnChar '/' name, plain c := by
+    intro c hc
+    rcases List.mem_append.mp hc with h | h
+    · exact hw c h
+    · exact hv c h
+  constructor
+  · intro h
+    cases hf : findNode root (splitOnChar '/' wd ++ splitOnChar '/' name) with
+    | none => simp [hf] at h
+    | some x =>
+      simp only [hf, Option.map_some, Option.some.injEq] at h
+      exact ⟨x, findNode_sound _ root x hall hf, h⟩
+  · rintro ⟨x, hat, rfl⟩
+    rw [findNode_complete _ root x hwf hall hat]
+    rfl
+
+example : ∀ c ∈ splitOnChar '/' ['s'], plain c := by decide
+
 /-- … and `Open(name)` on such a name starts its symlink resolution at exactly that entry. -/
 theorem C29_open_valid (root : Dir) (name : Str) (fuel : Nat) (hv : ∀ c ∈ splitOnChar '/' name, plain c) :
     openFS root fuel [] name = openAt root fuel name := by
@@ -115,6 +167,9 @@ example : WF sampleTree :=
     exact WF.mk (by decide) (by intro e he; simp [Dir.dirs] at he))
 example : ∀ c ∈ splitOnChar '/' ['s', '/', 'f'], plain c := by decide
 
+-- `New` cleans the working directory, `ChangeDir` keeps it raw: the empty name at the empty working directory
+example : (stat sampleTree [] []).map (·.kind) = some 1 ∧ (statCD sampleTree [] []).map (·.kind) = none := by decide
+
 /-! ## Open -/
 
 /-- Once `open` has an answer, more fuel gives the same answer (the fuel is not observable). -/
@@ -130,19 +185,36 @@ theorem C29_open_fuel_independent (root : Dir) (n m : Nat) (p : Str) (r : OpenRe
 theorem C29_open_ok_no_loop (root : Dir) (k : Nat) (p : Str) (h : Resolves root k p) (n : Nat) (hn : k < n) :
     openAt root n p ≠ .outOfFuel := openAt_resolves h n hn
 
-/-- **Open reads through symlinks faithfully**: if `k` hops lead from `p` to a path `q` that is not a relative
+/-- **Open reads through symlinks**: if `k` hops lead from `p` to a path `q` that is not a relative
     symlink, `open` returns — for every fuel above `k` — exactly the entry the tree has at `q` (its file, its
-    directory, "not found", or "absolute target"). -/
+    directory, "not found", or "absolute target").  (`Hop` is stated on `findNode`; `C29_hop_iff_tree` restates it on the tree.) -/
 theorem C29_open_follows_chain (root : Dir) (k : Nat) (p q : Str) (h : HopsTo root k p q) (ht : Terminal root q)
     (n : Nat) (hn : k < n) : openAt root n p = direct root q := by
   obtain ⟨m, rfl⟩ : ∃ m, n = (m + 1) + k := ⟨n - k - 1, by omega⟩
   rw [openAt_hopsTo h, openAt_terminal_eq ht]
+
+/-- A symlink hop, in terms of the tree: for plain components in a well-formed tree, `p` hops to `q` exactly
+    when the tree has a relative symlink at `p` whose target, joined to `p`'s directory, is `q`. -/
+theorem C29_hop_iff_tree (root : Dir) (p q : Str) (hwf : WF root) (hp : ∀ c ∈ comps p, plain c) :
+    Hop root p q ↔ ∃ l, At root (comps p) (.link l) ∧ hasPrefix l.target ['/'] = false ∧ q = pathJoin [pathDir p, l.target] := by
+  unfold Hop
+  constructor
+  · rintro ⟨l, hf, ha, rfl⟩; exact ⟨l, findNode_sound _ root _ hp hf, ha, rfl⟩
+  · rintro ⟨l, hat, ha, rfl⟩; exact ⟨l, findNode_complete _ root _ hwf hp hat, ha, rfl⟩
+
+/-- Whatever file `Open` returns is a file `findNode` finds at some path (so, by soundness, a file of the
+    tree whenever that path has plain components): the view never invents content. -/
+theorem C29_open_returns_tree_file (root : Dir) (fuel : Nat) (wd name : Str) (f : FileN)
+    (h : openFS root fuel wd name = .file f) : ∃ q, findNode root (comps q) = some (.file f) :=
+  openAt_file_found fuel _ f h
 
 /-- An absolute symlink target fails cleanly. -/
 theorem C29_abs_link_clean (root : Dir) (p : Str) (l : LinkN) (n : Nat)
     (hf : findNode root (comps p) = some (.link l)) (ha : hasPrefix l.target ['/'] = true) :
     openAt root (n + 1) p = .absLink := by
   rw [openAt]; simp [hf, ha]
+
+example : openAt (.mk [] [] [⟨['a'], ['/', 'x'], 0⟩] 0) 1 ['a'] = .absLink := by rfl
 
 /-- The tree `{a -> b, b -> a}`. -/
 def loop2 : Dir := .mk [] [] [⟨['a'], ['b'], 0⟩, ⟨['b'], ['a'], 0⟩] 0
@@ -169,9 +241,15 @@ theorem C29_open_diverges_on_self_loop : ∀ fuel, openFS loop1 fuel [] ['a'] = 
   rw [e]
   exact openAt_cycle1 h1 fuel
 
-/-- Any two paths that resolve to each other do it. -/
-theorem C29_open_diverges_on_any_2cycle (root : Dir) (p q : Str) (h1 : Hop root p q) (h2 : Hop root q p) :
-    ∀ fuel, openAt root fuel p = .outOfFuel := fun n => (openAt_cycle2 h1 h2 n).1
+/-- **Every** symlink cycle does it: if some number of hops leads from `p` back to `p`, no fuel suffices. -/
+theorem C29_open_diverges_on_any_cycle (root : Dir) (k : Nat) (p : Str) (h : HopsTo root (k + 1) p p) :
+    ∀ fuel, openAt root fuel p = .outOfFuel := openAt_cycle h
+
+-- non-vacuity: a three-link cycle a -> b -> c -> a
+example : HopsTo (.mk [] [] [⟨['a'], ['b'], 0⟩, ⟨['b'], ['c'], 0⟩, ⟨['c'], ['a'], 0⟩] 0) 3 ['a'] ['a'] :=
+  HopsTo.succ (q := ['b']) ⟨⟨['a'], ['b'], 0⟩, by rfl, by decide, by decide⟩
+    (HopsTo.succ (q := ['c']) ⟨⟨['b'], ['c'], 0⟩, by rfl, by decide, by decide⟩
+      (HopsTo.succ (q := ['a']) ⟨⟨['c'], ['a'], 0⟩, by rfl, by decide, by decide⟩ (HopsTo.zero _)))
 
 -- non-vacuity of C29_open_ok_no_loop: s/l -> ../g resolves in one hop
 example : Resolves sampleTree 1 ['s', '/', 'l'] :=
@@ -185,7 +263,19 @@ example : openAt sampleTree 2 ['s', '/', 'l'] = .file ⟨['g'], 2, 7, 0⟩ := by
 
 /-! ## ReadDir -/
 
-/-- `ReadDir(n ≤ 0)` lists exactly the directory: every sub-directory, file and symlink once, in order. -/
+/-- **The listing is the tree**: `ReadDir(n ≤ 0)` returns an entry exactly when the tree has, directly in that
+    directory, an entry of that name with that kind, size and permission bits. -/
+theorem C29_readDir_lists_tree (d : Dir) (n : Int) (hn : n ≤ 0) (i : Info) :
+    i ∈ readDir d n ↔ ∃ x, At d [i.name] x ∧ x.info = i := by
+  simp only [readDir, hn, ↓reduceIte]
+  exact mem_entries_iff d i
+
+/-- … with one entry per node: as many entries as the directory has sub-directories, files and symlinks. -/
+theorem C29_readDir_length (d : Dir) (n : Int) (hn : n ≤ 0) :
+    (readDir d n).length = d.dirs.length + d.files.length + d.links.length := by
+  simp [readDir, hn, entries]; omega
+
+/-- `ReadDir(n ≤ 0)` in order: sub-directories, then files, then symlinks (the order of the code's three loops). -/
 theorem C29_readDir_all (d : Dir) (n : Int) (h : n ≤ 0) :
     readDir d n = d.dirs.map (fun e => dirInfo e.1 e.2) ++ d.files.map fileInfo ++ d.links.map linkInfo := by
   simp [readDir, h, entries]
